@@ -204,12 +204,63 @@ impl SubCheck for CheckerLevel {
     }
 }
 
+/// Wide systems: more actors than a machine word has bits, all quiet, crash budget 1 or 2. The
+/// reachable states are exactly the crash sets within the budget, which is a closed formula.
+pub struct WideSystems;
+#[derive(Clone)]
+struct Quiet;
+impl stateright::actor::Actor for Quiet {
+    type Msg = u8;
+    type State = u8;
+    type Timer = ();
+    type Random = ();
+    fn on_start(&self, _: stateright::actor::Id, _: &mut stateright::actor::Out<Self>) -> u8 {
+        0
+    }
+}
+impl SubCheck for WideSystems {
+    type Case = (usize, usize, bool, usize);
+    fn name(&self) -> &'static str {
+        "wide_quiet_systems"
+    }
+    fn cases(&self, tier: Tier) -> u32 {
+        tier.pick(12, 120)
+    }
+    fn strategy(&self, _tier: Tier) -> BoxedStrategy<Self::Case> {
+        (prop_oneof![2 => 65usize..90, 1 => 2usize..12], 1usize..=2, any::<bool>(), prop_oneof![Just(1usize), Just(2usize)]).boxed()
+    }
+    fn check(&self, (n, budget, bfs, threads): &Self::Case, cov: &mut Cov) -> Result<(), Fail> {
+        use stateright::actor::{ActorModel, Network};
+        use stateright::{Checker, Expectation, Model};
+        let model = ActorModel::new((), ())
+            .actors((0..*n).map(|_| Quiet))
+            .init_network(Network::new_unordered_nonduplicating([]))
+            .max_crashes(*budget)
+            .property(Expectation::Always, "true", |_, _| true);
+        let b = model.checker().threads(*threads);
+        let c = if *bfs { b.spawn_bfs().join().unique_state_count() } else { b.spawn_dfs().join().unique_state_count() };
+        cov.eval();
+        let want = 1 + n + if *budget >= 2 { n * (n - 1) / 2 } else { 0 };
+        ensure!(c == want, "c09/checker-state-count-differs", "{} quiet actors, crash budget {}: {} crash sets are reachable, {} with {} thread(s) reports unique_state_count = {}", n, budget, want, if *bfs { "bfs" } else { "dfs" }, threads, c);
+        cov.label_if(*n > 64, "more_than_64_actors");
+        cov.label_if(*n <= 64, "narrow_control");
+        cov.nontrivial(&(n, budget, bfs, threads));
+        if cov.wants_sample() {
+            cov.sample(json!({"quiet_actors": n, "crash_budget": budget, "reachable_crash_sets": want}));
+        }
+        Ok(())
+    }
+    fn mandatory(&self) -> Vec<&'static str> {
+        vec!["more_than_64_actors"]
+    }
+}
+
 pub fn spec() -> PropSpec {
     PropSpec {
         id: "C09",
         level: "fault_enumeration",
         rule: "Cases = generated actor systems (1-3 actors, crash budget 1..n, timers and random choices pending, messages in flight to every actor, three networks x lossy) whose bounded state space (network <= 3 messages, history capped) is enumerated exhaustively by the differential driver, so every crash point of every execution within the bound is taken: Crash(i) enabled <=> i is up and fewer than k are down; successor = flag set, i's timers and choices emptied, nothing else; crashed actors never receive/fire/choose and never change; other actors step as the reference says. Checker level: spawn_bfs/spawn_dfs on the same system must evaluate every reachable crash combination and report the structural number of states. One evaluation = one (state, action) pair or one checker run. Non-trivial = a crash taken while the actor has a pending timer/choice or an addressed in-flight message; distinct by hash of (system, state, action).",
         assumptions: vec!["bounded: <= 3 actors, network <= 3 messages; systems whose bounded space exceeds the cap are labelled space_capped and not counted as exhaustive"],
-        subs: vec![Box::new(CrashSemantics), Box::new(CheckerLevel)],
+        subs: vec![Box::new(CrashSemantics), Box::new(CheckerLevel), Box::new(WideSystems)],
     }
 }
